@@ -388,7 +388,7 @@ func definedUnder(v ssa.Value, origin Site) bool {
 		}
 		return false
 	}
-	return origin.Block.Dominates(b)
+	return dominates(origin.Block, b)
 }
 
 // isResultCell: alloc is a named result of its function (a Return yields a load of it).
